@@ -4,6 +4,7 @@
 //!   verif-replay bounded <PROPERTY>             -> exhaustive bounded cross-checks (thorough tier), prints counts
 mod oracle;
 mod more;
+mod kat;
 use oracle::*;
 use pkgsrc::distinfo::{Distinfo, Entry, Checksum, DistinfoError};
 use pkgsrc::digest::Digest;
@@ -933,6 +934,8 @@ fn run_witness(args: &[String]) -> i32 {
             Ok(p) => real_plist_views(&p),
             Err(_) => "parse-error".into(),
         },
+        "digest" => more::real_digest(&g("entry"), &g("algo"), &unhexb(&g("hexdata")), &g("sched")),
+        "digest_name" => pkgsrc::digest::Digest::from_str(&g("name")).map(|d| d.to_string()).unwrap_or_else(|_| "unsupported".into()),
         "pkgpath" => more::real_pkgpath(&g("path")),
         "depend" => more::real_depend(&g("depend")),
         "meta_table" => more::real_meta_table(),
@@ -1009,6 +1012,7 @@ fn main() {
                 "C08" => search_c08(&mut r, iters),
                 "C09" => search_c09(&mut r, iters),
                 "C15" => search_c15(&mut r, iters),
+                "C13" => more::search_c13(&mut r, iters) && more::hex2_table_ok(),
                 "C16" => more::search_c16(&mut r, iters),
                 "C17" => more::search_c17(&mut r, iters),
                 "C19" => more::search_c19(&mut r, iters),
@@ -1020,6 +1024,7 @@ fn main() {
             };
             println!("SEARCH {} seed={} iters={} {}", pid, seed, iters, if ok { "no-disagreement" } else { "disagreement-found" });
         }
+        "digests" => more::dump_digests(args.get(2).and_then(|s| s.parse().ok()).unwrap_or(0), args.get(3).and_then(|s| s.parse().ok()).unwrap_or(600)),
         "witness" => std::process::exit(run_witness(&args[2..])),
         "bounded" => {
             let pid = args[2].as_str();
